@@ -363,6 +363,51 @@ struct Engine {
                     if (!bad.empty())
                         Report(Fmt("interrupt:line=%d,ctx=%d,cpc=%u", line, ctx, cpc), "interrupt entry followed by " + std::string(ctx ? "retic" : "reti") + ": " + bad, w, 2, s, si);
                 }
+        // a fixed line and the vectored line requested at the same boundary: the fixed handler runs and returns, then the vectored one
+        // (its address/context latch travels in the pad words, see the glue); afterwards everything is as in the uninterrupted run
+        for (int line = 0; line < 3; ++line)
+            for (int ctx = 0; ctx < 4; ++ctx) {
+                VState s = states[si];
+                s.ie = 1;
+                for (int i = 0; i < 3; ++i)
+                    s.im[i] = i == line, s.ip[i] = i == line, s.ic[i] = (i == line) && (ctx & 1);
+                s.imv = 1, s.ipv = 1, s.sw_imv = 1; // the vectored line is enabled in both banks
+                u32 vec = 0x0006 + 8 * line;
+                s.pc = vec - 1;
+                s.pad1[0] = (u16)(vec + 1), s.pad1[1] = (u16)(0x8000 | ((ctx >> 1) << 8));
+                VState plain = s;
+                plain.ie = 0, plain.ip[line] = 0, plain.ipv = 0;
+                std::vector<u16> w = {0x0000, (u16)((ctx & 1) ? 0x45D0 : 0x45C0), (u16)((ctx & 2) ? 0x45D0 : 0x45C0)};
+                VState out, ref;
+                RunResult rr, rr2;
+                if (!Exec(s, w, 3, out, rr)) {
+                    Report(Fmt("interrupt:two-requests:line=%d,ctx=%d:outcome", line, ctx), OutcomeName(rr.outcome), w, 3, s, si);
+                    continue;
+                }
+                Exec(plain, w, 1, ref, rr2);
+                digests.insert(Fnv(&out, sizeof(out), 177 + line));
+                std::string bad;
+                if (out.pc != vec)
+                    bad = Fmt("resume address %05X, expected %05X", out.pc, vec);
+                else if (out.sp != s.sp)
+                    bad = Fmt("sp %04X, expected %04X", out.sp, s.sp);
+                else if (out.ie != 1)
+                    bad = "interrupts not re-enabled";
+                else if (out.ip[line] != 0 || out.ipv != 0)
+                    bad = "a request is still pending";
+                else {
+                    ref.ie = 1;
+                    std::vector<std::string> allow = {"pc"};
+                    if (ctx)
+                        allow = {"pc", "sh_flags", "a1s", "b1s", "repcs"};
+                    std::string d = Frame(ref, out, allow);
+                    if (!d.empty())
+                        bad = "register " + d + " differs from the uninterrupted run";
+                }
+                if (!bad.empty())
+                    Report(Fmt("interrupt:two-requests:line=%d,ctx=%d", line, ctx),
+                           "a fixed-line and a vectored request at the same boundary, handlers " + std::string((ctx & 1) ? "retic" : "reti") + " / " + ((ctx & 2) ? "retic" : "reti") + ": " + bad, w, 3, s, si);
+            }
     }
 };
 
